@@ -259,7 +259,18 @@ def grep_forbidden(module=None):
 
 
 def audit(prop, thorough=False):
-    """proof obligations of one property: its module builds, every inventoried theorem exists with the
+    """proof obligations of one property: Properties/Cxx.lean and, where present, its continuation Properties/Cxxb.lean"""
+    a = audit1(prop, thorough)
+    if re.fullmatch(r"C\d+", prop) and (prop + "b") in inventory():
+        b = audit1(prop + "b", thorough)
+        a = {"obligations": a["obligations"] + b["obligations"], "discharged": a["discharged"] + b["discharged"],
+             "failed": a["failed"] + b["failed"], "theorems": {**a["theorems"], **b["theorems"]},
+             "checker_cmd": a.get("checker_cmd", "") + " ; " + b.get("checker_cmd", "")}
+    return a
+
+
+def audit1(prop, thorough=False):
+    """proof obligations of one property module: it builds, every inventoried theorem exists with the
     inventoried statement, uses only allowed axioms; no forbidden token in any source."""
     inv = inventory().get(prop, {"module": "Properties." + prop, "theorems": []})
     module = inv["module"]
@@ -307,7 +318,7 @@ def update_inventory(props=None):
     inv = json.load(open(path)) if os.path.exists(path) else {}
     pdir = os.path.join(LEAN, "Properties")
     for fn in sorted(os.listdir(pdir)):
-        m = re.match(r"(C\d+)\.lean$", fn)
+        m = re.match(r"(C\d+b?)\.lean$", fn)
         if not m or (props and m.group(1) not in props):
             continue
         prop = m.group(1)
